@@ -413,6 +413,9 @@ func (c *mevalCtx) eval(e ast.Expr) mval {
 				return mval{t: "bool", b: true}
 			}
 			r := c.eval(x.Y)
+			if r.t == "varies" {
+				return r
+			}
 			rb, ok := c.asBool(r)
 			if !ok {
 				return mval{t: "unknown"}
@@ -486,6 +489,9 @@ func (c *mevalCtx) eval(e ast.Expr) mval {
 				}
 				return mval{t: "varies"}
 			}
+			if (l.t == "lossy" && (r.t == "opnd" || r.t == "lossy")) || (r.t == "lossy" && l.t == "opnd") {
+				return mval{t: "varies"}
+			}
 			// typed operand comparison: both sides refer to the two operands (possibly converted)
 			if l.t == "opnd" && r.t == "opnd" && l.side != r.side {
 				kl, kr := c.kindOf(l.side), c.kindOf(r.side)
@@ -517,7 +523,13 @@ func (c *mevalCtx) eval(e ast.Expr) mval {
 	case *ast.CallExpr:
 		// conversion keeps the operand reference (float64(int) is order preserving)
 		if tv, ok := c.info.Types[x.Fun]; ok && tv.IsType() && len(x.Args) == 1 {
-			return c.eval(x.Args[0])
+			v := c.eval(x.Args[0])
+			// a conversion that can lose information (float to integer, 64 bits to fewer) does not preserve the
+			// order of the operands: what a comparison of its result says depends on the value
+			if v.t == "opnd" && lossyConversion(c.info.TypeOf(x.Args[0]), tv.Type) {
+				return mval{t: "lossy", side: v.side}
+			}
+			return v
 		}
 		if sel, ok := x.Fun.(*ast.SelectorExpr); ok {
 			if f, ok := c.info.Uses[sel.Sel].(*types.Func); ok && f.Pkg() != nil && f.Pkg().Path() == "reflect" {
@@ -850,7 +862,7 @@ func ruleTruthMatrix(prog *Program, rep *Report) {
 					case len(ctx.undec) > 0:
 						rep.Errorf("M-truth undecided for %s: %s", desc, ctx.undec[0])
 					case ctx.result != nil && ctx.result.t == "varies":
-						rep.Violate(Finding{Rule: "M-truth", Key: key + ":value-dependent", Pos: prog.Pos(cc.Pos()), Msg: fmt.Sprintf("%s depends on the operand's value (it is compared with the zero value a failed type assertion left behind), the documented semantics give %v for every value", desc, want)})
+						rep.Violate(Finding{Rule: "M-truth", Key: key + ":value-dependent", Pos: prog.Pos(cc.Pos()), Msg: fmt.Sprintf("%s depends on the operand's value (it is compared with the zero value a failed type assertion left behind, or after a conversion that loses information), the documented semantics give %v for every value", desc, want)})
 					case ctx.result == nil || ctx.result.t != "bool":
 						got := "no boolean result"
 						if ctx.result != nil {
@@ -986,4 +998,42 @@ func ruleRadix(prog *Program, rep *Report) {
 	if found < 2 {
 		rep.Errorf("M-radix found %d multi-value loops (floor 2)", found)
 	}
+}
+
+// lossyConversion: converting from to to can change the value's place in the order of numbers
+// (float to any integer, a 64-bit number to fewer bits, signed to unsigned).
+func lossyConversion(from, to types.Type) bool {
+	if from == nil || to == nil {
+		return false
+	}
+	fb, ok1 := from.Underlying().(*types.Basic)
+	tb, ok2 := to.Underlying().(*types.Basic)
+	if !ok1 || !ok2 {
+		return false
+	}
+	isF := func(b *types.Basic) bool { return b.Info()&types.IsFloat != 0 }
+	isI := func(b *types.Basic) bool { return b.Info()&types.IsInteger != 0 }
+	bits := func(b *types.Basic) int {
+		switch b.Kind() {
+		case types.Int8, types.Uint8:
+			return 8
+		case types.Int16, types.Uint16:
+			return 16
+		case types.Int32, types.Uint32, types.Float32:
+			return 32
+		}
+		return 64
+	}
+	switch {
+	case isF(fb) && isI(tb):
+		return true
+	case isF(fb) && isF(tb):
+		return bits(tb) < bits(fb)
+	case isI(fb) && isI(tb):
+		if bits(tb) < bits(fb) {
+			return true
+		}
+		return fb.Info()&types.IsUnsigned == 0 && tb.Info()&types.IsUnsigned != 0
+	}
+	return false // integer to float64: order preserving up to rounding at 2^53, as stated in the explanation
 }
